@@ -20,7 +20,7 @@ thread_local! {
 }
 
 // (the last three: a backslash next to unprintable characters that are no control characters - format, private use, unassigned)
-const BASES: [&str; 14] = ["", "foo", "a b", "(x)", "é", "a\tb", "^a$", "[", "a\\tb", "a*", "a\\\\b", "C:\\temp \u{200d}", "a\\b\u{e000}", "\u{378}\\x41"];
+const BASES: [&str; 15] = ["", "foo", "a b", "(x)", "é", "a\tb", "^a$", "[", "a\\tb", "a*", "a\\\\b", "C:\\temp \u{200d}", "a\\b\u{e000}", "\u{378}\\x41", "a\\x0ab"];
 const KINDS: [&str; 10] = ["equal", "eq", "no-eol", "escaped", "esc", "glob", "gl", "regex", "re", ""];
 const QUANTS: [&str; 4] = ["", "?", "*", "+"];
 const ODD: [&str; 12] = [" ()", " (foo)", " (glob )", "(glob)", " (GLOB)", " (re?*)", " (?+)", "  (glob)", " ( glob)", "\u{a0}(glob)", "\t(re?)", "\u{3000}(+)"];
